@@ -282,7 +282,28 @@ func (c *Ctx) Field(rel, typ, field string) *types.Var {
 			return st.Field(i)
 		}
 	}
-	return nil
+	// the field moved into a struct of the same package that this one embeds or holds by
+	// value (one level down, unambiguous)
+	var found *types.Var
+	for i := 0; i < st.NumFields(); i++ {
+		sub, ok := st.Field(i).Type().(*types.Named)
+		if !ok || sub.Obj().Pkg() != n.Obj().Pkg() {
+			continue
+		}
+		ss, ok := sub.Underlying().(*types.Struct)
+		if !ok {
+			continue
+		}
+		for j := 0; j < ss.NumFields(); j++ {
+			if ss.Field(j).Name() == field {
+				if found != nil {
+					return nil
+				}
+				found = ss.Field(j)
+			}
+		}
+	}
+	return found
 }
 
 // RepoFuncs returns every source function (including anonymous ones) of the
